@@ -321,3 +321,31 @@ pub fn paginate(m: &HashMap<String, String>) -> Value {
         }
     }
 }
+
+/// C16: the batch queries on a store whose pending batch carries the model's deadline.
+pub fn batchquery(m: &HashMap<String, String>) -> Value {
+    let next = geti(m, "pre:u64, Batch.6.Some.0", 0).max(0) as u64;
+    let present = geti(m, "pre:u64, Batch.6#d", 1) == 1;
+    let who = Who::new(false);
+    let mut chain = scen::instantiate(&CfgSpec::base(), Uint128::new(1000), Uint128::new(1));
+    let mut b = staking::state::BATCHES.load(&chain.deps.storage, 1).unwrap();
+    b.next_batch_action_time = if present { Some(next) } else { None };
+    staking::state::BATCHES.save(&mut chain.deps.storage, 1, &b).unwrap();
+    let env = chain.env.clone();
+    let mut outcomes = vec![];
+    let mut panicked = false;
+    for q in [staking::msg::QueryMsg::Batch { id: 1 }, staking::msg::QueryMsg::PendingBatch {}, staking::msg::QueryMsg::Batches { start_after: None, limit: None, status: None }, staking::msg::QueryMsg::BatchesByIds { ids: vec![1] }] {
+        let name = format!("{q:?}");
+        let r = symcore::catch(|| staking::contract::query(chain.deps.as_ref(), env.clone(), q));
+        match r {
+            Err(p) => {
+                panicked = true;
+                outcomes.push(format!("{name}: PANIC {p}"));
+            }
+            Ok(Err(e)) => outcomes.push(format!("{name}: err {e}")),
+            Ok(Ok(_)) => outcomes.push(format!("{name}: ok")),
+        }
+    }
+    let _ = who;
+    json!({"reproduced": panicked, "outcomes": outcomes, "inputs": {"next_batch_action_time": next, "present": present}})
+}
